@@ -142,6 +142,19 @@ def as_arg(word, as_string):
     return list(word)
 
 
+def edit_derived(F, make, ctx, what):
+    """a second automaton derived from F the same way and then taken apart in place (its root
+    deleted along with another state, a state and an edge added): F is none the wiser"""
+    before = snapshot(F)
+    D = make()
+    vs = list(D.vertices())
+    roots = [v for v in D.start_vertices if v in vs]      # (pruning can remove the root)
+    D.delete_vertices(list(dict.fromkeys(roots + vs[:1])))
+    D.add_vertices(["fresh-state"])
+    D.add_edges([("fresh-state", "fresh-state", "a")])
+    unchanged(F, before, ctx, what + ", then the result edited in place")
+
+
 def unchanged(F, before, ctx, what):
     after = snapshot(F)
     if after != before:
@@ -236,6 +249,8 @@ def op_multiple(F, m, k, ctx, even=False, lang_len=None):
     before = snapshot(F)
     R = F.even_automaton() if even else F.automaton_multiple(k)
     unchanged(F, before, ctx, "automaton_multiple(%d)" % k)
+    edit_derived(F, (lambda: F.even_automaton()) if even else (lambda: F.automaton_multiple(k)),
+                 ctx, "automaton_multiple(%d)" % k)
     rm = m.multiple(k)
     ctx.check(isinstance(R, FSA), "automaton_multiple returns an FSA", got=repr(R))
     check_views(R, rm, ctx, where="automaton_multiple(%d)" % k)
@@ -273,6 +288,8 @@ def op_rename(F, m, mp, inplace, ctx):
         before = snapshot(F)
         R = F.rename_generators(dict(mp), inplace=False)
         unchanged(F, before, ctx, "rename_generators(inplace=False)")
+        edit_derived(F, lambda: F.rename_generators(dict(mp), inplace=False), ctx,
+                     "rename_generators(inplace=False)")
         ctx.check(isinstance(R, FSA) and R is not F, "rename_generators(inplace=False) returns "
                   "a new FSA", got=repr(R))
     check_views(R, rm, ctx, where="rename_generators")
@@ -292,6 +309,7 @@ def op_recurrent(F, m, inplace, ctx):
         before = snapshot(F)
         R = F.recurrent()
         unchanged(F, before, ctx, "recurrent()")
+        edit_derived(F, lambda: F.recurrent(), ctx, "recurrent()")
         ctx.check(isinstance(R, FSA) and R is not F, "recurrent() returns a new FSA",
                   got=repr(R))
     got = set(R.vertices())
